@@ -1,70 +1,5 @@
 /-
-  Lemmas/Accessors.lean — the generated accessors (`Gen.acc_*`, translated from the Rust bodies on every run)
-  evaluated by the kernel on **every** value of the field they read (`u8`: 256 values, `u16`: 65536 values) against
-  the ABI macros, and the specification lemmas that follow for every record.  Nothing here depends on the syntactic
-  form of a translated body: a rewrite that computes the same function leaves the tables true.
+  Lemmas/Accessors.lean — both families of generated accessors (see AccSymbol.lean, AccVersion.lean).
 -/
-import ElfVerif.Model.Structs
-import ElfVerif.Lemmas.Domain
-namespace Elf
-
-/-- `ELF_ST_BIND`, `ELF_ST_TYPE`, `ELF_ST_VISIBILITY` on every byte. -/
-theorem st_byte_table :
-    allBelow 256 (fun i => Gen.acc_Symbol_st_bind (st_info := i) == i / 16 &&
-                           Gen.acc_Symbol_st_symtype (st_info := i) == i % 16 &&
-                           Gen.acc_Symbol_st_vis (st_other := i) == i % 4) = true := by decide +kernel
-
-/-- `st_shndx == SHN_UNDEF`, `VERSYM_VERSION`, `VERSYM_HIDDEN`, local/global on every halfword. -/
-theorem halfword_table :
-    allBelow 65536 (fun v => Gen.acc_Symbol_is_undefined (st_shndx := v) == (v == 0) &&
-                             Gen.acc_VersionIndex_index (v0 := v) == v % 32768 &&
-                             Gen.acc_VersionIndex_is_hidden (v0 := v) == decide (32768 ≤ v) &&
-                             Gen.acc_VersionIndex_is_local (v0 := v) == (v % 32768 == 0) &&
-                             Gen.acc_VersionIndex_is_global (v0 := v) == (v % 32768 == 1)) = true := by
-  decide +kernel
-
-theorem Symbol.stBind_eq (s : Symbol) : s.stBind = s.st_info % 256 / 16 := by
-  have := allBelow_spec _ _ st_byte_table (s.st_info % 256) (Nat.mod_lt _ (by decide))
-  simp only [Bool.and_eq_true, beq_iff_eq] at this
-  exact this.1.1
-
-theorem Symbol.stSymtype_eq (s : Symbol) : s.stSymtype = s.st_info % 16 := by
-  have := allBelow_spec _ _ st_byte_table (s.st_info % 256) (Nat.mod_lt _ (by decide))
-  simp only [Bool.and_eq_true, beq_iff_eq] at this
-  unfold Symbol.stSymtype; rw [this.1.2]; omega
-
-theorem Symbol.stVis_eq (s : Symbol) : s.stVis = s.st_other % 4 := by
-  have := allBelow_spec _ _ st_byte_table (s.st_other % 256) (Nat.mod_lt _ (by decide))
-  simp only [Bool.and_eq_true, beq_iff_eq] at this
-  unfold Symbol.stVis; rw [this.2]; omega
-
-theorem Symbol.isUndefined_eq (s : Symbol) : s.isUndefined = (s.st_shndx % 65536 == 0) := by
-  have := allBelow_spec _ _ halfword_table (s.st_shndx % 65536) (Nat.mod_lt _ (by decide))
-  simp only [Bool.and_eq_true, beq_iff_eq] at this
-  exact this.1.1.1.1
-
-theorem VersionIndex.index_eq (v : Nat) : VersionIndex.index v = v % 2 ^ 15 := by
-  have := allBelow_spec _ _ halfword_table (v % 65536) (Nat.mod_lt _ (by decide))
-  simp only [Bool.and_eq_true, beq_iff_eq] at this
-  unfold VersionIndex.index; rw [this.1.1.1.2]; omega
-
-theorem VersionIndex.isHidden_eq (v : Nat) : VersionIndex.isHidden v = decide (32768 ≤ v % 65536) := by
-  have := allBelow_spec _ _ halfword_table (v % 65536) (Nat.mod_lt _ (by decide))
-  simp only [Bool.and_eq_true, beq_iff_eq] at this
-  exact this.1.1.2
-
-theorem VersionIndex.isLocal_eq (v : Nat) : VersionIndex.isLocal v = (v % 2 ^ 15 == 0) := by
-  have := allBelow_spec _ _ halfword_table (v % 65536) (Nat.mod_lt _ (by decide))
-  simp only [Bool.and_eq_true, beq_iff_eq] at this
-  unfold VersionIndex.isLocal; rw [this.1.2]
-  have : v % 65536 % 32768 = v % 2 ^ 15 := by omega
-  rw [this]
-
-theorem VersionIndex.isGlobal_eq (v : Nat) : VersionIndex.isGlobal v = (v % 2 ^ 15 == 1) := by
-  have := allBelow_spec _ _ halfword_table (v % 65536) (Nat.mod_lt _ (by decide))
-  simp only [Bool.and_eq_true, beq_iff_eq] at this
-  unfold VersionIndex.isGlobal; rw [this.2]
-  have : v % 65536 % 32768 = v % 2 ^ 15 := by omega
-  rw [this]
-
-end Elf
+import ElfVerif.Lemmas.AccSymbol
+import ElfVerif.Lemmas.AccVersion
